@@ -48,6 +48,15 @@ func (p *Path) Resolve(v ssa.Value) ssa.Value {
 			// defers something): the value last stored into the cell on this path
 			st := p.lastStoreBefore(x)
 			if st == nil {
+				// a variable shared with a closure but assigned exactly once: that value
+				if x.Op == token.MUL {
+					if cell := Cell(x.X); cell != nil {
+						if sts := CellStores(cell); len(sts) == 1 {
+							v = sts[0].Val
+							continue
+						}
+					}
+				}
 				return v
 			}
 			v = st
